@@ -4,7 +4,7 @@ from __future__ import annotations
 from hypothesis import strategies as st
 
 from vlib.run import Result, Sub, open_finding_ids
-from vlib.gen import families, docs
+from vlib.gen import families, docs, noise
 
 from picosvg.svg import SVG
 
@@ -12,7 +12,7 @@ ID = "C07"
 RULE = (
     "Hypothesis draws documents from the union of the document families (structural, clip, stroke, cascade biased "
     "towards invisible content - opacity 0, display none, fill none -, gradients shared between shapes and declared "
-    "before/after their templates and used as stroke paint, opacities whose product rounds to 0, subpaths that return to within a rounding-grid unit of their start, twins, mixed) x ndigits 0..6 (the same value in every pass). Oracle (metamorphic): "
+    "before/after their templates and used as stroke paint, opacities whose product rounds to 0, subpaths that return to within a rounding-grid unit of their start, twins, mixed) x ndigits 0..6 (the same value in every pass) x drop_unsupported (1 in 5, with 1-3 unsupported elements inserted at leaf and container positions). Oracle (metamorphic): "
     "o1 = convert(src), o2 = convert(o1), o3 = convert(o2) must be byte-identical, and SVG.fromstring(o1).checkpicosvg() "
     "must report no violation. A first pass that raises is a rejection; a later pass that raises is a violation. "
     "Non-trivial = o1 contains a path and the source used a transform, clip, stroke, gradient, opacity group or an "
@@ -35,17 +35,20 @@ def _defs_sorted(out: str) -> str:
     return out[: m.start(1)] + "".join(sorted(kids, key=key)) + out[m.end(1) :]
 
 
-def _conv(s, nd):
-    return SVG.fromstring(s).topicosvg(ndigits=nd).tostring()
+def _conv(s, nd, drop=False):
+    return SVG.fromstring(s).topicosvg(ndigits=nd, drop_unsupported=drop).tostring()
 
 
 def check_doc(case) -> Result:
     r = Result()
     nd = case.get("ndigits", 3)
     feat = case.get("feat", [])
-    r.classes = tuple(f for f in feat if f.startswith("family:") or f.startswith("twin:") or f in ("rounding-boundary-subpath", "gradient-stroke")) + (f"ndigits={nd}",)
+    r.classes = tuple(f for f in feat if f.startswith("family:") or f.startswith("twin:") or f in ("rounding-boundary-subpath", "gradient-stroke", "unsupported-in-opacity-group")) + (f"ndigits={nd}",)
+    drop = bool(case.get("drop_unsupported"))
+    if drop:
+        r.classes += ("drop_unsupported",)
     try:
-        o1 = _conv(case["svg"], nd)
+        o1 = _conv(case["svg"], nd, drop)
     except Exception as e:
         r.rejected = f"convert:{type(e).__name__}"
         return r
@@ -53,8 +56,8 @@ def check_doc(case) -> Result:
         v = SVG.fromstring(o1).checkpicosvg()
         if v:
             r.bad("checkpicosvg", f"converted document fails the library's own check: {v}; o1={o1[:300]}")
-        o2 = _conv(o1, nd)
-        o3 = _conv(o2, nd)
+        o2 = _conv(o1, nd, drop)
+        o3 = _conv(o2, nd, drop)
     except Exception as e:
         r.bad("second-pass-raises", f"converting an already converted document raised {type(e).__name__}: {str(e)[:200]}; o1={o1[:400]}")
         return r
@@ -101,9 +104,52 @@ def c07_case(draw):
             q = (x + dlt, y) if draw(st.booleans()) else (x, y + dlt)
             p["a"]["d"] += f" M{x},{y} h{w} v{w} L{q[0]:.{nd + 2}f},{q[1]:.{nd + 2}f}" + draw(st.sampled_from([" z", " Z", ""]))
             feat = feat + ["rounding-boundary-subpath"]
-    return {"svg": docs.serialize(root, root=True), "feat": feat, "ndigits": nd}
+    case = {"feat": feat, "ndigits": nd}
+    if draw(st.integers(0, 4)) == 0:
+        # the same fixed point has to be reached on the option path that drops unsupported elements
+        labels = noise.insert_unsupported(draw, root, 1, 3)
+        groups = []
+
+        def walk(n, in_defs=False):
+            for c in n["c"]:
+                if c["tag"] == "g" and not in_defs and ("opacity" in c["a"] or "opacity" in c["s"]) and c["c"]:
+                    groups.append(c)
+                if not c["tag"].startswith("#"):
+                    walk(c, in_defs or c["tag"] in ("defs", "clipPath"))
+
+        walk(root)
+        leaves = []
+
+        def walk2(n, in_defs=False):
+            for i, c in enumerate(n["c"]):
+                if c["tag"] in docs._SHAPE_TAGS and not in_defs and "id" not in c["a"]:
+                    leaves.append((n, i))
+                if not c["tag"].startswith("#"):
+                    walk2(c, in_defs or c["tag"] in ("defs", "clipPath"))
+
+        walk2(root)
+        if leaves and draw(st.booleans()):
+            # a translucent group of ONE shape (itself translucent) and one unsupported element: kept at first, dissolved
+            # once the unsupported element is gone, the opacities multiplied and rounded
+            parent, i = leaves[draw(st.integers(0, len(leaves) - 1))]
+            leaf = parent["c"][i]
+            leaf["s"].pop("opacity", None)
+            leaf["a"]["opacity"] = draw(st.sampled_from(["0.5", "0.25", "0.75", "0.35"]))
+            g = docs.node("g", {"opacity": draw(st.sampled_from(["0.5", "0.25", "0.75", "0.35"]))}, c=[leaf])
+            g["c"].insert(draw(st.integers(0, 1)), noise._unsupported_node(draw, draw(st.sampled_from(["text", "image", "switch", "unknown"])), 8))
+            parent["c"][i] = g
+            case["feat"] = case["feat"] + ["unsupported-in-opacity-group"]
+        elif groups:
+            # ... in particular inside a translucent group, whose keep-or-dissolve decision changes once they are gone
+            g = draw(st.sampled_from(groups))
+            g["c"].insert(draw(st.integers(0, len(g["c"]))), noise._unsupported_node(draw, draw(st.sampled_from(["text", "image", "switch", "unknown"])), 9))
+            case["feat"] = case["feat"] + ["unsupported-in-opacity-group"]
+        case["drop_unsupported"] = True
+        case["feat"] = case["feat"] + ["unsupported"]
+    case["svg"] = docs.serialize(root, root=True)
+    return case
 
 
 SUBCHECKS = {
-    "doc": Sub("doc", check_doc, strategy=lambda ctx: c07_case(), examples={"quick": 600, "thorough": 6000}, describe=lambda c: {"svg": c["svg"], "ndigits": c["ndigits"]}),
+    "doc": Sub("doc", check_doc, strategy=lambda ctx: c07_case(), examples={"quick": 600, "thorough": 6000}, describe=lambda c: {"svg": c["svg"], "ndigits": c["ndigits"], "drop_unsupported": bool(c.get("drop_unsupported"))}),
 }
